@@ -186,9 +186,13 @@ def lookupIdent (reg : Registry) : RV → Except Err Desc
     | none => .error .noDescriptor
   | _ => .error .badShape
 
+/-- `len(desc.fields)`: the declared fields form a dict keyed by field NAME, so a (type, name) pair that a
+    descriptor lists twice (what `extend` with an already present field produced) counts once -/
+def Desc.slotCount (d : Desc) : Nat := (d.fields.map (·.2)).eraseDups.length
+
 /-- compatibility rule of `unpack_obj`: more values than fields + reserved ⇒ strip extras, keep the version -/
 def fitValues (d : Desc) (vals : List RV) : List RV :=
-  let expected := d.fields.length + Gen.RESERVED_FIELDS.length
+  let expected := d.slotCount + Gen.RESERVED_FIELDS.length
   if vals.length > expected then
     match vals.getLast? with
     | some v => vals.take (expected - 1) ++ [v]
